@@ -138,6 +138,9 @@ func (s *Solver) discharge(ob *Obligation, query string, stage int) {
 			os.MkdirAll(filepath.Dir(cacheFile), 0o755)
 			os.WriteFile(cacheFile, []byte(want+" "+solver+"\n"), 0o644)
 			return true
+		case res == "sat" && !ob.Cover && ob.Hints != nil:
+			// hypotheses were dropped on purpose (proof hint): a model only says the hint is too narrow
+			return false
 		case res == "sat" && !ob.Cover, res == "unsat" && ob.Cover:
 			ob.Status = "failed"
 			ob.Solver = solver
@@ -228,7 +231,25 @@ func (s *Solver) discharge(ob *Obligation, query string, stage int) {
 		}
 	}
 	var ag []string
+	// last resort: one query per join path and per top-level conjunct of the goal (built only now: it is costly)
+	if !ob.Cover && ob.split == nil {
+		choices := ob.vc.pathChoices(ob.PC, 24)
+		conj := splitConj(ob.Goal)
+		if choices == nil {
+			choices = []map[string]string{nil}
+		}
+		if len(choices) > 1 || len(conj) > 1 {
+			for _, c := range choices {
+				for _, g := range conj {
+					ob.split = append(ob.split, ob.vc.QueryGoal(ob, c, g))
+				}
+			}
+		}
+	}
 	if len(ob.split) > 0 && s.splitDischarge(ob) {
+		os.MkdirAll(filepath.Dir(cacheFile), 0o755)
+		os.WriteFile(cacheFile, []byte(want+" split\n"), 0o644)
+		os.Remove(file)
 		return
 	}
 	ob.Status = "undecided"
@@ -253,22 +274,12 @@ func firstLines(s string, n int) string {
 // undecided ones raced on all solvers at reduced parallelism (so that solver processes do not starve each other).
 func (s *Solver) DischargeAll(obs []*Obligation, par int) {
 	queries := make([]string, len(obs))
+	tq := time.Now()
 	for i, ob := range obs {
 		queries[i] = ob.vc.Query(ob)
-		if !ob.Cover {
-			choices := ob.vc.pathChoices(ob.PC, 24)
-			conj := splitConj(ob.Goal)
-			if choices == nil {
-				choices = []map[string]string{nil}
-			}
-			if len(choices) > 1 || len(conj) > 1 {
-				for _, c := range choices {
-					for _, g := range conj {
-						ob.split = append(ob.split, ob.vc.QueryGoal(ob, c, g))
-					}
-				}
-			}
-		}
+	}
+	if os.Getenv("GOCV_TIMING") != "" {
+		fmt.Fprintf(os.Stderr, "timing: query generation %.1fs for %d obligations\n", time.Since(tq).Seconds(), len(obs))
 	}
 	run := func(idx []int, par int, stage int) {
 		var wg sync.WaitGroup
@@ -287,6 +298,9 @@ func (s *Solver) DischargeAll(obs []*Obligation, par int) {
 	}
 	var all, rest []int
 	for i := range obs {
+		if obs[i].Status != "" {
+			continue // decided before solving (function outside the subset)
+		}
 		all = append(all, i)
 	}
 	if s.AllAgree {
@@ -304,7 +318,7 @@ func (s *Solver) DischargeAll(obs []*Obligation, par int) {
 	// the time - a solver starved by a loaded machine must not turn into an alarm.
 	var again []int
 	for i, ob := range obs {
-		if ob.Status == "undecided" && !ob.Cover {
+		if ob.Status == "undecided" && !ob.Cover && !strings.HasPrefix(ob.Solver, "function outside") {
 			again = append(again, i)
 		}
 	}
